@@ -619,6 +619,13 @@ func (c c19) Run(e *Env, cs *Case) (*Outcome, error) {
 		sum, n, extras := DebugDirSum(filepath.Join(w.Out, "debugdir"), deps)
 		o.Probes["debugdir-files-of-unbuilt-packages"] += extras
 		if sum != ref.DebugSum {
+			if p.Inject != nil {
+				// The same defect shows at this call site whatever the errno and the
+				// state of the target directory: key it by the site alone.
+				o.Violation = &Violation{Class: "debugdir-incomplete", Key: fmt.Sprintf("debugdir-incomplete/inject@%s[%s]", p.Inject.Site, p.Inject.Op),
+					Detail: fmt.Sprintf("%s with errno %d injected at %s (event %d of %s): the command exits %d, yet the -debugdir trees of the build's packages (%d files) differ from the cold reference (%d files)", key, p.Inject.Errno, p.Inject.Site, p.Inject.Seq, p.Inject.Proc, cl.ExitCode, n, ref.DebugN)}
+				return o, nil
+			}
 			return viol("debugdir-incomplete", fmt.Sprintf("the -debugdir trees of the build's packages have %d files and differ from the cold reference (%d files)", n, ref.DebugN))
 		}
 		o.Probes["debugdir-tree-compared"]++
